@@ -31,6 +31,43 @@ def filter_fn(ck):
     return create, rows, rets[0]
 
 
+def worker_gives_up_only_without_seeds(ck, rule):
+    """The worker answers None for a query only when the selection handed back no seed at all. Giving a query up because of what
+    *one* reference looks like (`any(<test on r> for r in referenceMaps)`) drops the seeds it has on all the other references."""
+    from ..rules.common import parallel_map_site
+    ck.clause(rule, "the worker gives a query up (returns None) only when no seed was selected over all references and both strands")
+    fn, call, mapname, wl, worker = parallel_map_site(ck.ctx)
+    refs = V(worker.call_params()[0].name) if worker.call_params() else None
+    n = 0
+    for pa in explore(ck, worker, unroll=(0, 1)):
+        if pa.outcome != "return" or pa.value != T.NONE:
+            continue
+        n += 1
+        conds = [(c, tv) for c, tv, _ in pa.state.assumptions]
+        if not conds:
+            raise AnalysisError(f"{where(worker, pa.node)}: the worker returns None unconditionally")
+        c, tv = conds[-1]
+        c0, pos = T.positive(T.as_bool(c))
+        truthy = tv if pos else (not tv)
+        no_seeds = (not truthy) and any(x[0] == "app" and x[1].endswith("selectPeaks") for x in T.subterms(c0))
+        if no_seeds and len(conds) == 1:
+            ck.ok(rule, short(worker) + ":gives-up", where(worker, pa.node), "None only when the selection is empty", T.show(c)[:120])
+            continue
+        if no_seeds:
+            continue                      # reached past other tests: those are judged on their own None path
+        some_ref = truthy and c0[0] == "call" and c0[1] == "any" and refs is not None and any(
+            x[0] == "comp" and any(it == refs for it, _ in x[3]) for x in T.subterms(c0))
+        if some_ref:
+            ck.violation(rule, short(worker) + ":gives-up", where(worker, pa.node),
+                         "the query is given up as soon as *one* reference fails a test (`any(... for r in referenceMaps)`): its seeds on "
+                         "every other reference are never looked at - with several reference contigs, one short contig removes every "
+                         "molecule longer than it from the output", found=T.show(c)[:200],
+                         required="None only when selectPeaks(...) over all references is empty")
+        else:
+            raise AnalysisError(f"{where(worker, pa.node)}: the worker gives a query up under a condition that is not understood: {T.show(c)[:160]}")
+    ck.floor(f"{rule} None paths of the worker", n, 1)
+
+
 def run(ck):
     ctx = ck.ctx
     p = ctx.p
@@ -267,6 +304,19 @@ def run(ck):
     from . import c16 as _c16
     _c16.run(_RV05(ck, {"C16.1": "C05.11"}, only_constructs=("createPeaks",)))
     refined_seeds(ck, "C05.12")
+    worker_gives_up_only_without_seeds(ck, "C05.18")
+    ck.clause("C05.17", "the files of the modes hold the records of the pass they stand for (as C08.2's mode table: _1 of 'all' is the main "
+                        "file of 'separate'): second-pass rows merged into the first-pass list outside 'best' put a fragment's record "
+                        "where the molecule's best first-pass candidate belongs")
+    if ck.wants("C05.17"):
+        from . import c08 as _c08_05b
+        _c08_05b.run(_RV05(ck, {"C08.2": "C05.17"}, only_constructs=("mode-table",)))
+    ck.clause("C05.16", "the seed selector the program runs with is built from --peaksCount (as C04.1): a selector left to a default "
+                        "count keeps another number of seeds than the option asks for, and the best candidate can come from a seed that "
+                        "was dropped")
+    if ck.wants("C05.16"):
+        from . import c04 as _c04_05
+        _c04_05.wiring(_RV05(ck, {"C04.1": "C05.16"}, only_constructs=("PeaksSelector",)))
     ck.clause("C05.14", "every output file is created afresh (mode 'w', as C08.2 / C09.9): a file opened for appending keeps the records "
                         "of the run before - several records per query, out of order")
     from . import c08 as _c08_05
